@@ -631,13 +631,21 @@ static void run_case(CaseCtx& c)
             continue;
         }
         SymmetricTridiagonalSolver<double> S(A.n);
-        S.is_cyclic(A.cyclic);
+        // set-up order: the flag is a plain attribute ("optionally set the cyclic boundary condition flag": a new solver
+        // is cyclic), so it may be set before the entries (what the smoothers do), after them, or not at all for a cyclic
+        // system; and it may be re-asserted with its unchanged value between solves
+        const int order = rng.range(0, 3);
+        if (order == 0 || !A.cyclic)
+            S.is_cyclic(A.cyclic);
         for (int i = 0; i < A.n; i++)
             S.main_diagonal(i) = A.d[i];
         for (int i = 0; i + 1 < A.n; i++)
             S.sub_diagonal(i) = A.s[i];
         if (A.cyclic)
             S.cyclic_corner_element() = A.c;
+        if (order == 1 && A.cyclic)
+            S.is_cyclic(true);
+        const bool reassert_flag = order == 3;
         std::vector<double> t1(A.n), t2(A.n);
         auto solve = [&](std::vector<double>& x) {
             int tm = rng.range(0, 2); // temp storage content must not matter: NaN, garbage, or left over
@@ -647,6 +655,8 @@ static void run_case(CaseCtx& c)
                     t2[i] = tm == 0 ? poison : rng.uniform(-1e6, 1e6);
                 }
             double* p2 = A.cyclic ? t2.data() : (rng.coin() ? t2.data() : nullptr);
+            if (reassert_flag)
+                S.is_cyclic(A.cyclic);
             S.solveInPlace(x.data(), t1.data(), p2);
         };
         bool immediate = rng.coin(0.5);
